@@ -34,6 +34,8 @@ PROPS = {
     "C02": planner_prop(["Props/C02.v"], ["C02"], diff_fields={1}),
     "C03": planner_prop(["Props/C03.v"], ["C03"], diff_fields={1}),
     "C05": planner_prop(["Props/C05.v"], ["C05"], diff_fields={1}),
+    "C07": planner_prop(["Props/C07.v"], ["C07"], diff_fields={1}),
+    "C08": planner_prop(["Props/C08.v"], ["C08"], diff_fields={1}),
 }
 
 FAMS_QUICK = "table:120,rv:10,so2:6,so3:6,se2:6,se3:5,css:5"
@@ -64,6 +66,8 @@ PLANNER_STAGE_FLAGS = {
     "C02": [("planners+histories", ["--misuse"])],
     "C03": [("planners", [])],
     "C05": [("planners", [])],
+    "C07": [("planners+histories", ["--misuse"])],
+    "C08": [("planners+faults+misuse", ["--faults", "--misuse"])],
 }
 
 
